@@ -79,6 +79,10 @@ void h_kwp_u(void)
 	}
 	else if (e != ERR_OK)
 		V_ASSERT(o_eq(dest, d0, CC), "beltKWPUnwrap: outputs are untouched when an argument error is returned");
+	/* zero header (NULL): a token that was not produced by beltKWPWrap must not unwrap (native only: the probability that a
+	   generated token decrypts to a zero header is 2^-128) */
+	V_NATIVE_ONLY(if (len_ok && CNT >= 32) { g_fail_at = 0; e = beltKWPUnwrap(dest, src, CNT, 0, key, len);
+		V_ASSERT(e == ERR_BAD_KEYTOKEN, "beltKWPUnwrap (zero header): an arbitrary token is rejected with ERR_BAD_KEYTOKEN"); })
 	V_CANARY("kwp_u");
 }
 void h_dwp_u(void)
